@@ -705,5 +705,154 @@ theorem ptsPoint_restriction (toks : List Tok) (t : Nat) (ht : 3 ≤ t) :
       rw [List.drop_take, List.take_take]; congr 1; omega
     · left; rw [if_neg h]
 
+/-! ### bytes → lines → tokens on writer-shaped text -/
+
+/-- tokens joined by single spaces -/
+def joinSp : List Tok → List UInt8
+  | [] => []
+  | [t] => t
+  | t :: t' :: ts => t ++ 32 :: joinSp (t' :: ts)
+
+/-- a printed number: non-empty, no white space -/
+def CleanTok (t : Tok) : Prop := t ≠ [] ∧ ∀ b ∈ t, isSpace b = false
+
+theorem fieldsAux_tok (t : Tok) (ht : ∀ b ∈ t, isSpace b = false) (rest cur : List UInt8) :
+    fieldsAux (t ++ rest) cur = fieldsAux rest (t.reverse ++ cur) := by
+  induction t generalizing cur with
+  | nil => rfl
+  | cons b t ih =>
+    have hb := ht b List.mem_cons_self
+    simp only [List.cons_append, fieldsAux, hb, Bool.false_eq_true, if_false]
+    rw [ih (fun x hx => ht x (List.mem_cons_of_mem _ hx))]
+    simp
+
+theorem fields_joinSp_aux (ts : List Tok) (h : ∀ t ∈ ts, CleanTok t) (tail : List UInt8)
+    (htail : tail = [] ∨ tail = [32]) :
+    fieldsAux (joinSp ts ++ tail) [] = ts := by
+  induction ts with
+  | nil => rcases htail with rfl | rfl <;> simp [joinSp, fieldsAux, isSpace]
+  | cons t ts ih =>
+    obtain ⟨hne, hsp⟩ := h t List.mem_cons_self
+    have hts : ∀ x ∈ ts, CleanTok x := fun x hx => h x (List.mem_cons_of_mem _ hx)
+    have hrev : (t.reverse ++ ([] : List UInt8)).isEmpty = false := by
+      cases t with
+      | nil => exact absurd rfl hne
+      | cons a b => simp
+    cases ts with
+    | nil =>
+      simp only [joinSp]
+      rw [fieldsAux_tok t hsp]
+      rcases htail with rfl | rfl
+      · simp only [fieldsAux, hrev, Bool.false_eq_true, if_false]; simp
+      · simp only [fieldsAux, isSpace, hrev, Bool.false_eq_true, if_false]; simp
+    | cons t' ts =>
+      simp only [joinSp, List.append_assoc, List.cons_append]
+      rw [fieldsAux_tok t hsp]
+      simp only [fieldsAux, isSpace, hrev, Bool.false_eq_true, if_false]
+      have := ih hts
+      rw [if_pos (by decide), this]
+      simp
+
+theorem fields_joinSp (ts : List Tok) (h : ∀ t ∈ ts, CleanTok t) : fields (joinSp ts) = ts := by
+  have := fields_joinSp_aux ts h [] (Or.inl rfl)
+  simpa [fields] using this
+
+theorem fields_joinSp_space (ts : List Tok) (h : ∀ t ∈ ts, CleanTok t) : fields (joinSp ts ++ [32]) = ts :=
+  fields_joinSp_aux ts h [32] (Or.inr rfl)
+
+/-! scanning lines -/
+
+theorem scanLinesAux_line (l rest cur : List UInt8) (hl : (10 : UInt8) ∉ l) :
+    scanLinesAux (l ++ 10 :: rest) cur = dropCR (cur.reverse ++ l) :: scanLinesAux rest [] := by
+  induction l generalizing cur with
+  | nil => simp [scanLinesAux]
+  | cons b l ih =>
+    have hb : b ≠ 10 := fun h => hl (h ▸ List.mem_cons_self)
+    simp only [List.cons_append, scanLinesAux, if_neg hb]
+    rw [ih (b :: cur) (fun h => hl (List.mem_cons_of_mem _ h))]
+    simp
+
+theorem scanLinesAux_last (p cur : List UInt8) (hp : (10 : UInt8) ∉ p) :
+    scanLinesAux p cur = if (cur.reverse ++ p).isEmpty then [] else [dropCR (cur.reverse ++ p)] := by
+  induction p generalizing cur with
+  | nil => simp [scanLinesAux]
+  | cons b p ih =>
+    have hb : b ≠ 10 := fun h => hp (h ▸ List.mem_cons_self)
+    simp only [scanLinesAux, if_neg hb]
+    rw [ih (b :: cur) (fun h => hp (List.mem_cons_of_mem _ h))]
+    simp
+
+theorem dropCR_noCR (l : List UInt8) (h : (13 : UInt8) ∉ l) : dropCR l = l := by
+  unfold dropCR
+  split
+  · next r hr =>
+    exfalso; apply h
+    have : (13 : UInt8) ∈ l.reverse := by rw [hr]; exact List.mem_cons_self
+    simpa using this
+  · rfl
+
+/-- the text of a body: every line its tokens joined by single spaces, then a line feed -/
+def renderLines (ls : List (List Tok)) : List UInt8 := ls.flatMap fun ts => joinSp ts ++ [10]
+
+def mkLine (ts : List Tok) : Line := ⟨joinSp ts, ts⟩
+
+theorem joinSp_noSpecial (ts : List Tok) (h : ∀ t ∈ ts, CleanTok t) :
+    (10 : UInt8) ∉ joinSp ts ∧ (13 : UInt8) ∉ joinSp ts := by
+  induction ts with
+  | nil => simp [joinSp]
+  | cons t ts ih =>
+    obtain ⟨_, hsp⟩ := h t List.mem_cons_self
+    have hts : ∀ x ∈ ts, CleanTok x := fun x hx => h x (List.mem_cons_of_mem _ hx)
+    have h10 : (10 : UInt8) ∉ t := fun hm => by have := hsp _ hm; simp [isSpace] at this
+    have h13 : (13 : UInt8) ∉ t := fun hm => by have := hsp _ hm; simp [isSpace] at this
+    cases ts with
+    | nil => exact ⟨h10, h13⟩
+    | cons t' ts =>
+      obtain ⟨i10, i13⟩ := ih hts
+      simp only [joinSp, List.mem_append, List.mem_cons]
+      constructor
+      · rintro (hm | hm | hm)
+        · exact h10 hm
+        · exact absurd hm (by decide)
+        · exact i10 hm
+      · rintro (hm | hm | hm)
+        · exact h13 hm
+        · exact absurd hm (by decide)
+        · exact i13 hm
+
+/-- complete lines followed by a last piece `p` without line break: the scanner delivers the lines, and `p`
+    as a final line when it is non-empty -/
+theorem scanLines_render (ls : List (List Tok)) (h : ∀ ts ∈ ls, ∀ t ∈ ts, CleanTok t) (p : List UInt8)
+    (hp10 : (10 : UInt8) ∉ p) (hp13 : (13 : UInt8) ∉ p) :
+    scanLines (renderLines ls ++ p) = ls.map mkLine ++ (if p.isEmpty then [] else [⟨p, fields p⟩]) := by
+  unfold scanLines
+  induction ls with
+  | nil =>
+    simp only [renderLines, List.flatMap_nil, List.nil_append, List.map_nil]
+    rw [scanLinesAux_last p [] hp10]
+    simp only [List.reverse_nil, List.nil_append]
+    by_cases hpe : p.isEmpty = true
+    · simp [hpe]
+    · simp [hpe, dropCR_noCR p hp13]
+  | cons ts ls ih =>
+    obtain ⟨j10, j13⟩ := joinSp_noSpecial ts (h ts List.mem_cons_self)
+    have hls : ∀ x ∈ ls, ∀ t ∈ x, CleanTok t := fun x hx => h x (List.mem_cons_of_mem _ hx)
+    have e : renderLines (ts :: ls) ++ p = joinSp ts ++ 10 :: (renderLines ls ++ p) := by
+      simp [renderLines]
+    rw [e, scanLinesAux_line _ _ _ j10]
+    simp only [List.reverse_nil, List.nil_append, List.map_cons, dropCR_noCR _ j13]
+    rw [ih hls]
+    simp [mkLine, fields_joinSp ts (h ts List.mem_cons_self)]
+
+theorem joinSp_ne_nil (ts : List Tok) (h : ∀ t ∈ ts, CleanTok t) (hne : ts ≠ []) : joinSp ts ≠ [] := by
+  cases ts with
+  | nil => exact absurd rfl hne
+  | cons t ts =>
+    obtain ⟨htne, _⟩ := h t List.mem_cons_self
+    cases ts with
+    | nil => simpa [joinSp] using htne
+    | cons t' ts => simp [joinSp]
+
+
 end Readers
 end PolyVerif
